@@ -225,7 +225,7 @@ class DatasetRelabel(Contract):
     props = ("C13",)
     bound_names = ("ds.x.n", "ds.y.n")
 
-    OPS = ("replace-axis", "rename-via-dataset", "rename-via-dims-setter", "rename-via-variable", "relabel-via-dataset", "relabel-via-variable",
+    OPS = ("replace-axis", "replace-axis-by-position", "replace-axis-by-negative-position", "replace-axis-renaming", "rename-via-dataset", "rename-via-dims-setter", "rename-via-variable", "relabel-via-dataset", "relabel-via-variable",
            "rename-via-rename_axes", "rename-via-set_axis", "relabel-via-set_axis", "rename-keys")
 
     def cases(self, tier):
@@ -236,7 +236,7 @@ class DatasetRelabel(Contract):
     def setup(self, S, case):
         ds, labels = make_dataset(S, case["state"])
         env = {"ds": ds, "labels": labels, "snap": snapshot_ds(S, ds)}
-        if case["op"] in ("replace-axis", "relabel-via-set_axis"):
+        if case["op"] in ("replace-axis", "replace-axis-by-position", "replace-axis-by-negative-position", "replace-axis-renaming", "relabel-via-set_axis"):
             env["newlab"] = S.array1d("newlab", "f", n=S.n(labels["x"]))
         if case["op"] in ("relabel-via-dataset", "relabel-via-variable"):
             env["newlabel"] = S.real("newlabel")
@@ -248,6 +248,12 @@ class DatasetRelabel(Contract):
         first = list(dict.keys(ds))[0]
         if op == "replace-axis":
             ds.axes["x"] = env["ds"].axes["x"].__class__(env["newlab"], "x")
+        elif op == "replace-axis-by-position":
+            ds.axes[0] = env["ds"].axes["x"].__class__(env["newlab"], "x")               # x is the first dimension in every state
+        elif op == "replace-axis-by-negative-position":
+            ds.axes[-len(ds.axes)] = env["ds"].axes["x"].__class__(env["newlab"], "x")
+        elif op == "replace-axis-renaming":
+            ds.axes["x"] = env["ds"].axes["x"].__class__(env["newlab"], "time")          # the new Axis carries another name
         elif op == "rename-via-dataset":
             ds.axes["x"].name = "time"
         elif op == "rename-via-dims-setter":
@@ -267,6 +273,18 @@ class DatasetRelabel(Contract):
         elif op == "rename-keys":
             ds.rename_keys({first: "renamed"})
 
+    def raises(self, S, case, env):
+        if case["op"] == "replace-axis-renaming":
+            # an Axis carrying ANOTHER name may be refused or may rename the dimension everywhere: the statement fixes neither, only
+            # that the dataset and its variables agree afterwards
+            return {ValueError: (False, True)}
+        return {}
+
+    def post_exc(self, S, case, env, exc):
+        for c in ds_inv(S, env["ds"]):
+            yield c
+        yield "dimensions-are-those-the-variables-use", sorted(ax.name for ax in env["ds"].axes) == sorted({d for k in dict.keys(env["ds"]) for d in dict.__getitem__(env["ds"], k).dims})
+
     def post(self, S, case, env, result):
         ds, op = env["ds"], case["op"]
         for c in ds_inv(S, ds):
@@ -276,14 +294,14 @@ class DatasetRelabel(Contract):
             yield "key-renamed-same-variable-object", "renamed" in dict.keys(ds) and first not in dict.keys(ds) and dict.__getitem__(ds, "renamed") is env["snap"]["vars"][first]
             yield "dimensions-unchanged", [a.name for a in ds.axes] == env["snap"]["dims"]
             return
-        newname = "time" if op.startswith("rename") else "x"
+        newname = "time" if op.startswith("rename") or op == "replace-axis-renaming" else "x"
         yield "dataset-sees-the-change", newname in [ax.name for ax in ds.axes] and ("x" in [ax.name for ax in ds.axes]) == (newname == "x")
         ax = ds.axes[newname]
         had_x = [k for k, dims in STATES[case["state"]] if "x" in dims]
         for k in had_x:
             v = dict.__getitem__(ds, k)
             yield "variable-%s-sees-the-change" % k, newname in v.dims and v.axes[newname] is ax
-        if op in ("replace-axis", "relabel-via-set_axis"):
+        if op.startswith("replace-axis") or op == "relabel-via-set_axis":
             yield "new-labels-in-place", S.forall(0, S.n(env["newlab"]), lambda i: S.implies(i < S.n(ax.values), lambda: S.at(ax.values, i) == S.at(env["newlab"], i)))
         if op in ("relabel-via-dataset", "relabel-via-variable"):       # a single label replaced
             yield "new-label-in-place", S.at(ax.values, 0) == env["newlabel"]
@@ -841,6 +859,12 @@ class DatasetDimsSetter(Contract):
         # names that are NOT distinct must be rejected (the dataset stays as it was): no dataset with two dimensions of one name
         for state, new in (("a(x),b(x,y)", ("x", "x")), ("a(x),b(x,y)", ("u", "u")), ("a(x,y)", ("y", "y"))):
             yield {"name": "%s|dims=%s|rejected" % (state, ",".join(new)), "state": state, "new": list(new), "reject": True}
+        # rename_axes with a mapping that permutes / shifts the names (all at once), and one that collides (rejected)
+        for state, mapper, new in (("a(x),b(x,y)", {"x": "y", "y": "x"}, ("y", "x")), ("a(x,y)", {"x": "y", "y": "w"}, ("y", "w")),
+                                   ("a(x),b(x,y),c(y)", {"y": "x", "x": "y"}, ("y", "x")), ("a(x),b(x,y)", {"x": "t"}, ("t", "y"))):
+            yield {"name": "%s|rename_axes(%s)" % (state, ",".join("%s>%s" % kv for kv in mapper.items())), "state": state, "new": list(new), "rename_axes": mapper}
+        for state, mapper in (("a(x),b(x,y)", {"x": "y"}), ("a(x,y)", {"y": "x"})):
+            yield {"name": "%s|rename_axes(%s)|rejected" % (state, ",".join("%s>%s" % kv for kv in mapper.items())), "state": state, "new": None, "reject": True, "rename_axes": mapper}
         for state, (axis, name) in (("a(x),b(x,y)", ("x", "y")), ("a(x),b(x,y)", (1, "x"))):
             yield {"name": "%s|set_axis(name=%s,axis=%s)|rejected" % (state, name, axis), "state": state, "new": None, "reject": True, "set_axis": (axis, name)}
 
@@ -853,7 +877,9 @@ class DatasetDimsSetter(Contract):
 
     def call(self, fn, env):
         case = env["case"]
-        if case.get("set_axis"):
+        if case.get("rename_axes"):
+            env["ds"].rename_axes(dict(case["rename_axes"]))
+        elif case.get("set_axis"):
             env["ds"].set_axis(name=case["set_axis"][1], axis=case["set_axis"][0])
         else:
             env["ds"].dims = tuple(case["new"])
